@@ -27,7 +27,8 @@ PrivKeyStates == {"absent", "badAny", "ok"}        \* badAny: an Any that does n
 FrozenStates  == {"absent", "okSigned", "badSig", "badHashLen"}
 TsStates      == {"absent", "t1", "t2", "invalid"} \* t1 < t2; invalid: nanos out of range
 DelayStates   == {-1, 0, 5, 10}
-EkuStates     == {"none", "known", "unknown", "any"}
+EkuStates     == {"none", "known", "unknown", "any", "unknownThenAny", "anyThenUnknown"}
+                 \* any: the literal Any among known names; the last two: an unknown name before / after Any
 BackendStates == {"trillian", "ctfe"}              \* extra_data_issuance_chain_storage_backend
 ConnStates    == {"", "mysql://ok", "mysql://bad", "mysql", "postgres://ok", "other://x"}
                                                     \* "mysql": starts like the mysql scheme, no "://" separator
@@ -70,7 +71,7 @@ DelaysOK(c) == c.mmd >= 0 /\ c.expected >= 0 /\ c.expected <= c.mmd
 NotRejectAll(c) == ~(c.rejectExpired /\ c.rejectUnexpired)
 
 \* only known EKU names
-EkusOK(c) == c.ekus # "unknown"
+EkusOK(c) == c.ekus \notin {"unknown", "unknownThenAny", "anyThenUnknown"}
 
 \* a usable external-storage connection string when that backend is selected
 UsableConn == {"mysql://ok", "postgres://ok"}
